@@ -34,7 +34,7 @@ impl AllocTracker {
     pub fn alloc<T>(&self, count: usize) -> Result<AllocHandle, crate::OutOfMemory> {
         let bytes = count * std::mem::size_of::<T>();
         #[cfg(jxl_oxide_verif)]
-        if self.inner.verif.on_alloc_attempt() {
+        if self.inner.verif.on_alloc_attempt(bytes) {
             return Err(crate::OutOfMemory::new(bytes));
         }
         let result = self.inner.bytes_left.fetch_update(
@@ -55,6 +55,8 @@ impl AllocTracker {
             }
             Err(left) => {
                 tracing::trace!(bytes, left, "Allocation failed");
+                #[cfg(jxl_oxide_verif)]
+                self.inner.verif.on_alloc_refused(bytes);
                 Err(crate::OutOfMemory::new(bytes))
             }
         }
@@ -125,6 +127,8 @@ mod verif {
         fail_at: AtomicUsize,
         fail_sticky: AtomicBool,
         injected: AtomicUsize,
+        refused: AtomicUsize,
+        log: std::sync::Mutex<Option<Vec<(usize, usize)>>>,
     }
 
     impl Default for VerifState {
@@ -136,13 +140,18 @@ mod verif {
                 fail_at: AtomicUsize::new(usize::MAX),
                 fail_sticky: AtomicBool::new(false),
                 injected: AtomicUsize::new(0),
+                refused: AtomicUsize::new(0),
+                log: std::sync::Mutex::new(None),
             }
         }
     }
 
     impl VerifState {
         /// Returns `true` if this attempt has to fail.
-        pub(super) fn on_alloc_attempt(&self) -> bool {
+        pub(super) fn on_alloc_attempt(&self, bytes: usize) -> bool {
+            if let Some(log) = self.log.lock().unwrap().as_mut() {
+                log.push((self.outstanding.load(Ordering::SeqCst), bytes));
+            }
             let idx = self.attempts.fetch_add(1, Ordering::SeqCst);
             let fail_at = self.fail_at.load(Ordering::SeqCst);
             let fail = idx == fail_at || (self.fail_sticky.load(Ordering::SeqCst) && idx > fail_at && fail_at != usize::MAX);
@@ -155,6 +164,10 @@ mod verif {
         pub(super) fn on_alloc_ok(&self, bytes: usize) {
             let now = self.outstanding.fetch_add(bytes, Ordering::SeqCst) + bytes;
             self.high_water.fetch_max(now, Ordering::SeqCst);
+        }
+
+        pub(super) fn on_alloc_refused(&self, _bytes: usize) {
+            self.refused.fetch_add(1, Ordering::SeqCst);
         }
 
         pub(super) fn on_release(&self, bytes: usize) {
@@ -181,6 +194,21 @@ mod verif {
         /// Number of failures injected so far.
         pub fn verif_injected(&self) -> usize {
             self.inner.verif.injected.load(Ordering::SeqCst)
+        }
+
+        /// Number of attempts refused because of the limit (not counting injected failures).
+        pub fn verif_refused(&self) -> usize {
+            self.inner.verif.refused.load(Ordering::SeqCst)
+        }
+
+        /// Starts recording `(outstanding bytes before, requested bytes)` for every attempt.
+        pub fn verif_enable_log(&self) {
+            *self.inner.verif.log.lock().unwrap() = Some(Vec::new());
+        }
+
+        /// Takes the recorded attempts.
+        pub fn verif_take_log(&self) -> Vec<(usize, usize)> {
+            self.inner.verif.log.lock().unwrap().take().unwrap_or_default()
         }
 
         /// Bytes left in the budget.
